@@ -23,6 +23,14 @@ CLAIMED = {
        'differential campaign only, not proved. Tied to the code on every run by exhaustive token-sequence campaigns '
        '(texts x 7 codes, malformed lines) against real Reply/IO over scripted sockets.',
   ref='6/C17', technique='Lean 4 proof (scan/append lemma, induction over lines and segments) + differential correspondence model vs real IO/Reply'),
+ 'C18': dict(
+  text='Lean theorems over Model/Proxy.lean (proxyproto.py transliteration; a socket = any stream + any short-read pattern of '
+       'recv_into): v1 exact parse and exact consumption for every grammar line, any payload, any short reads; v1 <= 107 bytes always; '
+       'v2 exact (16+len consumed, LOCAL dropped, PROXY -> encoded address), v2 <= 16+declared always, v2 outcome a function of the byte '
+       'stream only; auto-detection equals the right parser; v1 parser soundness (an accepted line is exactly 5 fields, digits-only ports '
+       '<= 65535, resolver-accepted addresses) and completeness. inet_pton/inet_ntop are oracle parameters (universally quantified). '
+       'Tied to the code by corruption/truncation/length/short-read campaigns against the real mix-ins.',
+  ref='6/C18', technique='Lean 4 proof (read-loop invariants, well-founded induction) + differential correspondence model vs real proxyproto mix-ins'),
 }
 def main():
     props = [json.loads(l) for l in open(os.path.join(V, 'properties.jsonl'))]
